@@ -205,19 +205,20 @@ class RepeatOnce(Expression):
     def generate(self, gen: Builder, matched_var: str, pairs_var: str) -> None:
         """Emit Python code for repeat one or more times."""
         gen.writeln("# <RepeatOnce>")
-        acc_pairs = gen.new_temp("children")
         tmp_pairs = gen.new_temp("item_children")
         count_var = gen.new_temp("count")
-        trivia_pos = gen.new_temp("trivia_pos")
 
-        gen.writeln(f"{trivia_pos} = state.pos")
-        gen.writeln(f"{acc_pairs}: list[Pair] = []")
         gen.writeln(f"{tmp_pairs}: list[Pair] = []")
         gen.writeln(f"{count_var} = 0")
 
         gen.writeln("while True:")
         with gen.block():
+            # The checkpoint is taken before the trivia between iterations, so
+            # that the trivia is given back if there's no next iteration.
             gen.writeln("state.checkpoint()")
+            gen.writeln(f"if {count_var} > 1:")
+            with gen.block():
+                gen.writeln(f"parse_trivia(state, {tmp_pairs})")
             # Parse one item
             self.expression.generate(gen, matched_var, tmp_pairs)
 
@@ -227,32 +228,22 @@ class RepeatOnce(Expression):
                 gen.writeln("state.ok()")
 
                 # Commit the item immediately
-                gen.writeln(f"{acc_pairs}.extend({tmp_pairs})")
+                gen.writeln(f"{pairs_var}.extend({tmp_pairs})")
                 gen.writeln(f"{tmp_pairs}.clear()")
 
-                # Save pos before trivia
-                gen.writeln(f"{trivia_pos} = state.pos")
-
-                # Parse trivia after item.
-                # Non-silent trivia will be added to acc_pairs on the next
-                # iteration if it succeeds.
-                gen.writeln(f"parse_trivia(state, {tmp_pairs})")
+                # `e+` is `e ~ e*`: trivia after the first item belongs to
+                # the sequence and is kept.
+                gen.writeln(f"if {count_var} == 1:")
+                with gen.block():
+                    gen.writeln(f"parse_trivia(state, {pairs_var})")
 
             gen.writeln("else:")
             with gen.block():
-                # Restore checkpoint and also rewind trivia pos
                 gen.writeln("state.restore()")
-                gen.writeln(f"state.pos = {trivia_pos}")
+                gen.writeln(f"{tmp_pairs}.clear()")
                 gen.writeln("break")
 
-        # After the loop, validate minimum
-        gen.writeln(f"if {count_var} < 1:")
-        with gen.block():
-            gen.writeln(f"{matched_var} = False")
-        gen.writeln("else:")
-        with gen.block():
-            gen.writeln(f"{pairs_var}.extend({acc_pairs})")
-            gen.writeln(f"{matched_var} = True")
+        gen.writeln(f"{matched_var} = {count_var} > 0")
 
         gen.writeln("# </RepeatOnce>")
 
